@@ -158,7 +158,10 @@ func compareAggregate(agg [][2]string, want map[string]string, posOf func(string
 func C13(c *core.Ctx) {
 	c.Explanation("C13: the aggregate writers and the per-sequence writers are interpreted on the same bounded families of per-sequence results (all sequences of up to three records drawn from fixed mutation lists, with and without a reference record, thresholds 0, 0.5 (an occurring frequency) and 1, two windows, --append-snps on/off); the aggregate output must list exactly the mutations whose count over the per-sequence writer's rows divided by the number of rows is >= threshold, each once, with that frequency printed by FormatFloat('f', 9, 64), in non-decreasing genomic position. This decides the counting map, the denominator (reference excluded), the threshold comparison, the shared window predicate and the number format for those families; it does not decide that a mutation occurs at most once per sequence's list (assumed).")
 	checkReferenceRecordName(c, "R6")
-	c.Assumption("a mutation occurs at most once in one sequence's list (property C04/C05 territory)")
+	c.Assumption("a mutation occurs at most once in one sequence's list (property C04/C05 territory; checked on the single-site family under four annotations, R7)")
+	if tabs := extractTables(c, newEval(c), "R0t"); tabs.OK {
+		checkNoDuplicateRecords(c, tabs, "R7/per-sequence-lists-carry-no-record-twice")
+	}
 	// ---------------- snps
 	univ := []string{"C5T", "A10T", "A10G"}
 	var subsets [][]string
@@ -275,6 +278,14 @@ func C13(c *core.Ctx) {
 		}
 		c.Ob("R5/snps/numeric-position-order", strings.Join(order, ",") == "A9C,A10T,A100G", funcPos(c, "pkg/snps", "aggregateWriteOutput"), "positions 9, 10, 100 are written in the order %v", order)
 	}
+	c13Variants(c)
+}
+
+// c13Variants: the aggregate writer of variants / sam variants against the per-sequence writer (shared with C04:
+// in aggregate mode with --append-snps every reported position must still be mentioned).
+func c13Variants(c *core.Ctx) {
+	var bad []string
+	n := 0
 	// ---------------- variants
 	U := map[string]*eval.StructVal{}
 	mk := func(kind string, pos, length int64, ref, alt string, residue int64, feature, snps string) *eval.StructVal {
